@@ -8,7 +8,7 @@ SOURCES = ["mls-rs/src/tree_kem/math.rs", "mls-rs/src/tree_kem/node.rs"]
 
 
 def run(ctx, extra=()):
-    proved = common.prove(ctx, ["MlsVerif.Props.C20"])
+    proved = common.prove(ctx, ["MlsVerif.Props.C20", "MlsVerif.Props.GenTables"])
     ctx.cov["source_hashes"] = common.source_hashes(SOURCES)
     built = common.cargo_build(ctx)
     rows = 0
